@@ -1201,7 +1201,7 @@ def evaluate__uri_collection(self: XPathFunction, context: ta.ContextType = None
     if self.context is not None:
         context = self.context
 
-    uri = self.get_argument(context)
+    uri = self.get_argument(context, cls=str)
     if context is None:
         raise self.missing_context()
     elif isinstance(context, XPathSchemaContext):
